@@ -12,3 +12,4 @@ import LyModel.Props.C01Lyb
 #print axioms LyModel.Props.C01Lyb.hash_multi_state_injective
 #print axioms LyModel.Props.C01Lyb.lyb_skip_lands_at_end_fails
 #print axioms LyModel.Props.C01Lyb.lyb_skip_lands_at_end_nested_fails
+#print axioms LyModel.Props.C01Lyb.lyb_skip_lands_at_end_partial
